@@ -1010,7 +1010,15 @@ func validateMetadata(meta map[string]string, allowConsulPrefix bool, allowedCon
 		return fmt.Errorf("Node metadata cannot contain more than %d key/value pairs", metaMaxKeyPairs)
 	}
 
-	for key, value := range meta {
+	// Visit the keys in sorted order so that the pair named in the error does
+	// not depend on map iteration order (this runs inside the Raft FSM).
+	keys := make([]string, 0, len(meta))
+	for key := range meta {
+		keys = append(keys, key)
+	}
+	sort.Strings(keys)
+	for _, key := range keys {
+		value := meta[key]
 		if err := validateMetaPair(key, value, allowConsulPrefix, allowedConsulKeys); err != nil {
 			return fmt.Errorf("Couldn't load metadata pair ('%s', '%s'): %s", key, value, err)
 		}
